@@ -294,6 +294,12 @@ impl<'t, 'd> G<'t, 'd> {
             "```typ #f(x) ```",
             "```c a\n b```",
             "```\n\ttab\n```",
+            // blanks behind the opening fence / the language tag (trimmed by Typst, not content)
+            "```py  \n\nprint(1)\n```",
+            "``` \n```",
+            "```typ  \nx ```",
+            "```  \n  a\n  ```",
+            "````  \n\n\n````",
         ];
         let s = self.t.pick(R);
         // re-indent continuation lines by the current markup indentation
